@@ -207,8 +207,11 @@ func ldapSetup(w *vfWorld) {
 				why = "record was not written by this server (tampered / foreign / altered)"
 			case info.User != user:
 				why = "record belongs to " + info.User
-			case !time.Now().Before(info.Exp):
+			case !ctx.started.Before(info.Exp.Add(time.Second)):
+				// judged at the instant the request came in (requests take simulated seconds during an outage), whole seconds
 				why = "record older than its signed expiry"
+			case !time.Now().Before(info.Exp.Add(-time.Second)):
+				return // the 96 hours end while this request is being served: either answer is right
 			case info.Pw != pw:
 				why = "password does not match the cached one"
 			default:
